@@ -34,10 +34,99 @@ Proof.
   - (* keywords *)
     match goal with k : keyword |- _ => destruct k end; try exact (Hexpr _ H).
     all: try (inv H; inv_all; use_claims).
-    all: try (apply sout_plain; try reflexivity; cbn [wfs]; tt; auto; fail).
     all: try (eapply (for_out rec O); eassumption).
     all: try (eapply (try_out rec O); eassumption).
     all: try exact (Hexpr _ H).
-    Show.
-Abort.
+    all: try (match goal with |- sout _ (SVar ?a) _ =>
+           apply sout_plain; try reflexivity; change (wfs false aret (SVar a)) with (nonemptyb a && wfdeclsF true a);
+           tt; auto using nonempty_ne end).
+    all: try (match goal with |- sout _ (SSwitch ?e ?cs) _ =>
+           apply sout_plain; try reflexivity;
+           change (wfs false aret (SSwitch e cs)) with (wf false true e && (count_default cs <=? 1) && wfcasesF aret cs);
+           tt; auto end).
+    all: unfold sout; cbn [wfs is_decl open_if];
+         repeat match goal with Hd : is_decl _ = false |- _ => rewrite Hd end; cbn [negb]; rewrite ?andb_true_r.
+    all: repeat match goal with Ho : open_if ?t = true -> noelse (TK KElse :: _) = true |- _ =>
+           destruct (open_if t) eqn:?; [specialize (Ho eq_refl); discriminate Ho|clear Ho] end.
+    all: repeat split; tt; auto; try reflexivity; try (intros; reflexivity); try discriminate.
+  - (* identifier: label or expression statement *)
+    destruct ts' as [|t2 ts'']; [exact (Hexpr _ H)|].
+    destruct t2; try exact (Hexpr _ H).
+    match goal with p : punct |- _ => destruct p end; try exact (Hexpr _ H).
+    inv H; inv_all; use_claims.
+    all: unfold sout; cbn [wfs is_decl open_if];
+         repeat match goal with Hd : is_decl _ = false |- _ => rewrite Hd end; cbn [negb]; rewrite ?andb_true_r.
+    all: repeat split; tt; auto.
+Qed.
+
+Lemma item_out aret ts s r : item_f rec aret ts = Ok s r ->
+  wfs false aret s = true /\ (open_if s = true -> noelse r = true).
+Proof.
+  unfold item_f. intros H.
+  assert (Hs : stmt_f rec aret ts = Ok s r -> wfs false aret s = true /\ (open_if s = true -> noelse r = true)).
+  { intros Hq. apply stmt_out in Hq as (W & D & Oi). auto. }
+  destruct ts as [|t ts']; [exact (Hs H)|].
+  destruct t; try exact (Hs H).
+  match goal with k : keyword |- _ => destruct k end; try exact (Hs H).
+  all: inv H; inv_all; use_claims.
+  all: try exact (Hs H).
+  all: try (match goal with E : stmt_f rec _ _ = Ok _ _ |- _ => apply stmt_out in E as (W & D & Oi); auto end).
+  all: split; [|cbn [open_if]; intros C; discriminate C].
+  all: try (match goal with |- wfs false ?a (SFunDecl ?n ?ps ?b) = true =>
+         change (wfs false a (SFunDecl n ps b)) with (wfisF true b); assumption end).
+  all: try (match goal with |- wfs false ?a (SConst ?ds) = true =>
+         change (wfs false a (SConst ds)) with (nonemptyb ds && wfdeclsF true ds && all_init ds); tt; auto using nonempty_ne end).
+  all: try (match goal with |- wfs false ?a (SLet ?ds) = true =>
+         change (wfs false a (SLet ds)) with (nonemptyb ds && wfdeclsF true ds); tt; auto using nonempty_ne end).
+Qed.
+
+Lemma items_out aret ts l r : items_f rec aret ts = Ok l r -> wfisF aret l = true.
+Proof.
+  unfold items_f. intros H.
+  assert (Hi : forall ts0, (do (s, r0) <- item_f rec aret ts0; do (l0, r1) <- p_items rec aret r0; Ok (s :: l0) r1) = Ok l r ->
+            wfisF aret l = true).
+  { intros ts0 Hq. inv Hq. apply item_out in E as [W _]. apply (o_items rec O) in E0.
+    change (wfisF aret (a :: a0)) with (wfs false aret a && wfisF aret a0). tt; auto. }
+  destruct ts as [|t ts']; [inv H; reflexivity|].
+  destruct t; try exact (Hi _ H).
+  - match goal with p : punct |- _ => destruct p end; try exact (Hi _ H). inv H. reflexivity.
+  - match goal with k : keyword |- _ => destruct k end; try exact (Hi _ H); inv H; reflexivity.
+Qed.
+
+Lemma step_out : out (step rec).
+Proof.
+  constructor; intros *; cbn [step p_expr p_assign p_comma_loop p_sc p_sc_loop p_bin p_bin_loop p_exp p_unary p_member
+    p_member_loop p_call_loop p_args_loop p_elems p_props p_stmt p_items p_decls p_cases].
+  - apply (expr_out rec O).
+  - apply (assign_out rec O).
+  - apply (comma_loop_out rec O).
+  - apply (sc_out rec O).
+  - apply (sc_loop_out rec O).
+  - apply (bin_at_out rec O).
+  - apply (bin_loop_out rec O).
+  - apply (exp_out rec O).
+  - apply (unary_out rec O).
+  - apply (member_out rec O).
+  - apply (member_loop_out rec O).
+  - apply (call_loop_out rec O).
+  - apply (args_loop_out rec O).
+  - apply (elems_out rec O).
+  - apply (props_out rec O).
+  - apply stmt_out.
+  - apply items_out.
+  - apply (decls_out rec O).
+  - apply (cases_out rec O).
+Qed.
+
 End Shape2.
+
+Lemma out_n n : out (parsers_n n).
+Proof. induction n; [apply out_nofuel|]. cbn [parsers_n]. apply step_out. exact IHn. Qed.
+
+Theorem parse_shaped_core_thm : forall ts a, parse_tokens ts = Some a -> shaped_core a.
+Proof.
+  intros ts a H. unfold parse_tokens, parse_script in H.
+  destruct (items_f (parsers_n (fuel_for ts)) false ts) as [l r| |] eqn:E; cbn [bind] in H; try discriminate.
+  destruct r; try discriminate. inversion H; subst.
+  apply (items_out _ (out_n _)) in E. unfold shaped_core, shaped_coreb. rewrite <- wfisF_eq. exact E.
+Qed.
